@@ -114,7 +114,7 @@ def vh(binpath, args, timeout=1800, env=None):
 
 def java_tlc(cwd, module, cfg, workers=1, env=None, timeout=3600, xmx="3g", extra=()):
     meta = tempfile.mkdtemp(prefix="meta-", dir=cwd)
-    cmd = ["java", "-XX:+UseParallelGC", f"-Xmx{xmx}", "-Xss64m", "-cp", JAR, "tlc2.TLC", "-workers", str(workers),
+    cmd = ["java", "-XX:+UseParallelGC", f"-Xmx{xmx}", "-Xss512m", "-cp", JAR, "tlc2.TLC", "-workers", str(workers),
            "-metadir", meta, "-config", cfg, *extra, module]
     e = dict(os.environ)
     if env:
